@@ -279,7 +279,7 @@ pub fn decode_history(target: &str, data: &[u8]) -> Option<serde_json::Value> {
                     _ => Op::Outsider { at, kind: b >> 5 },
                 });
             }
-            serde_json::to_value(Case { mode, nodes, ops, default_route: cfg & 0x10 != 0 }).ok()?
+            serde_json::to_value(Case { mode, nodes, ops, default_route: cfg & 0x10 != 0, plain_mask: if cfg & 0x80 != 0 { 0b1011 } else { 0 } }).ok()?
         }
         _ => return None,
     })
